@@ -31,6 +31,9 @@ pub enum Q {
     CountNodes(u16),
     SemHash32(u16),
     SemHash64(u16),
+    /// semantic_hash under a caller-made normalised map over the same prime (another map, same field)
+    SemHash32Map(u16, Vec<u8>),
+    SemHash64Map(u16, Vec<u8>),
     MarginalMap(u16, u8, Vec<u8>),
     Meu(u16, u8, Vec<u8>),
     BbReal(u16, u8, Vec<u8>),
@@ -46,6 +49,7 @@ impl Q {
         Some(match self {
             Q::WmcReal(i, _) | Q::WmcFf32(i, _) | Q::WmcFf64(i, _) | Q::WmcEu(i, _) | Q::WmcComplex(i, _) | Q::WmcPoly(i, _) | Q::WmcBool(i, _) => *i,
             Q::Evaluate(i, _) | Q::CountNodes(i) | Q::SemHash32(i) | Q::SemHash64(i) => *i,
+            Q::SemHash32Map(i, _) | Q::SemHash64Map(i, _) => *i,
             Q::MarginalMap(i, _, _) | Q::Meu(i, _, _) | Q::BbReal(i, _, _) | Q::BbEu(i, _, _) => *i,
             Q::Smooth(i, _) | Q::Condition(i, _, _) | Q::ConditionModel(i, _) | Q::Exists(i, _) => *i,
         })
@@ -53,7 +57,7 @@ impl Q {
     fn class(&self) -> &'static str {
         match self {
             Q::WmcReal(..) => "real",
-            Q::WmcFf32(..) | Q::WmcFf64(..) | Q::SemHash32(..) | Q::SemHash64(..) => "finite-field",
+            Q::WmcFf32(..) | Q::WmcFf64(..) | Q::SemHash32(..) | Q::SemHash64(..) | Q::SemHash32Map(..) | Q::SemHash64Map(..) => "finite-field",
             Q::WmcEu(..) => "expected-utility",
             Q::WmcComplex(..) => "complex",
             Q::WmcPoly(..) => "polynomial",
@@ -187,6 +191,8 @@ fn answer<'a, T: IteTable<'a, BddPtr<'a>> + Default>(
         Q::CountNodes(i) => Ans::N(at(i).count_nodes()),
         Q::SemHash32(i) => Ans::U(at(i).semantic_hash(&create_semantic_hash_map::<{ primes::U32_SMALL }>(n)).value()),
         Q::SemHash64(i) => Ans::U(at(i).semantic_hash(&create_semantic_hash_map::<{ primes::U64_LARGEST }>(n)).value()),
+        Q::SemHash32Map(i, s) => Ans::U(at(i).semantic_hash(&ff_params::<{ primes::U32_SMALL }>(n, s)).value()),
+        Q::SemHash64Map(i, s) => Ans::U(at(i).semantic_hash(&ff_params::<{ primes::U64_LARGEST }>(n, s)).value()),
         Q::MarginalMap(i, mask, s) => {
             let (v, m) = at(i).marginal_map(&qvars(n, *mask), n, &real_params(n, s, true));
             Ans::Opt(v, 0.0, model_vec(&m, n))
@@ -382,6 +388,8 @@ pub fn q_strategy() -> BoxedStrategy<Q> {
         3 => i().prop_map(Q::CountNodes),
         2 => i().prop_map(Q::SemHash32),
         2 => i().prop_map(Q::SemHash64),
+        1 => (i(), sel_strategy()).prop_map(|(a, s)| Q::SemHash32Map(a, s)),
+        1 => (i(), sel_strategy()).prop_map(|(a, s)| Q::SemHash64Map(a, s)),
         2 => (i(), any::<u8>(), sel_strategy()).prop_map(|(a, m, s)| Q::MarginalMap(a, m, s)),
         2 => (i(), any::<u8>(), sel_strategy()).prop_map(|(a, m, s)| Q::Meu(a, m, s)),
         1 => (i(), any::<u8>(), sel_strategy()).prop_map(|(a, m, s)| Q::BbReal(a, m, s)),
@@ -412,7 +420,7 @@ fn queries_strategy() -> impl Strategy<Value = Vec<Q>> {
 impl SubCheckT for BddQueries {
     type Case = Case;
     const NAME: &'static str = "bdd_queries";
-    const RULE: &'static str = "a pool of BDDs sharing nodes built by a <=25-op history in one builder (random order, either cache), then a history of <=26 queries on random pool entries: unsmoothed_wmc in real / two finite fields / expected utility / complex / polynomial / Boolean, evaluate, count_nodes, fold-based semantic_hash for two primes, marginal_map, meu, bb over reals and expected utility, smooth (plus a count on its result), condition, condition_model, exists; each answer must equal the answer to the same single query on a freshly built copy in a brand-new builder (which replays, of the earlier smooth / condition / exists queries, only those that built the queried diagram), and after every call every node reachable from the pool and from the result must report is_scratch_cleared(). Non-trivial: >=2 result types, the pool shares an internal node, and an earlier query is repeated";
+    const RULE: &'static str = "a pool of BDDs sharing nodes built by a <=25-op history in one builder (random order, either cache), then a history of <=26 queries on random pool entries: unsmoothed_wmc in real / two finite fields / expected utility / complex / polynomial / Boolean, evaluate, count_nodes, fold-based semantic_hash for two primes and under caller-made maps, marginal_map, meu, bb over reals and expected utility, smooth (plus a count on its result), condition, condition_model, exists; each answer must equal the answer to the same single query on a freshly built copy in a brand-new builder (which replays, of the earlier smooth / condition / exists queries, only those that built the queried diagram), and after every call every node reachable from the pool and from the result must report is_scratch_cleared(). Non-trivial: >=2 result types, the pool shares an internal node, and an earlier query is repeated";
     fn cases(tier: Tier) -> u32 {
         tier.pick(1500, 50_000)
     }
@@ -444,6 +452,10 @@ pub enum SQ {
     WmcPoly(u16, Vec<u8>),
     WmcBool(u16, Vec<u8>),
     Exists(u16, u8),
+    SemHash32(u16),
+    SemHash64Map(u16, Vec<u8>),
+    DSemHash32(u16),
+    DSemHash64Map(u16, Vec<u8>),
     /// queries on the top-down diagrams (index into the list: standard store, semantic store, then the
     /// results of earlier DCondition queries)
     DWmcReal(u16, Vec<u8>),
@@ -563,6 +575,10 @@ fn sdd_answer<'a>(w: &World<'a>, q: &SQ, extra_s: &mut Vec<SddPtr<'a>>, extra_d:
             }
             Ans::B(at(i).unsmoothed_wmc(&p).0)
         }
+        SQ::SemHash32(i) => Ans::U(at(i).semantic_hash(&create_semantic_hash_map::<{ primes::U32_SMALL }>(w.n)).value()),
+        SQ::SemHash64Map(i, s) => Ans::U(at(i).semantic_hash(&ff_params::<{ primes::U64_LARGEST }>(w.n, s)).value()),
+        SQ::DSemHash32(k) => Ans::U(dat(k).semantic_hash(&create_semantic_hash_map::<{ primes::U32_SMALL }>(w.dn.max(1))).value()),
+        SQ::DSemHash64Map(k, s) => Ans::U(dat(k).semantic_hash(&ff_params::<{ primes::U64_LARGEST }>(w.dn.max(1), s)).value()),
         SQ::Exists(i, v) => {
             let v = ((*v as usize) * w.n) >> 8;
             let r = w.sb.exists(at(i), VarLabel::new_usize(v));
@@ -634,6 +650,8 @@ impl SQ {
         match self {
             SQ::WmcReal(i, _) | SQ::WmcFf64(i, _) | SQ::WmcEu(i, _) | SQ::WmcFf32(i, _) | SQ::WmcComplex(i, _) | SQ::WmcPoly(i, _) | SQ::WmcBool(i, _) => (Some(*i), None),
             SQ::CountNodes(i) | SQ::SemHash64(i) | SQ::Evaluate(i, _) | SQ::Condition(i, _, _) | SQ::Exists(i, _) => (Some(*i), None),
+            SQ::SemHash32(i) | SQ::SemHash64Map(i, _) => (Some(*i), None),
+            SQ::DSemHash32(k) | SQ::DSemHash64Map(k, _) => (None, Some(*k)),
             SQ::DWmcReal(k, _) | SQ::DWmcEu(k, _) | SQ::DCountNodes(k) | SQ::DSemHash64(k) | SQ::DEvaluate(k, _) => (None, Some(*k)),
             SQ::DMarginalMap(k, _, _) | SQ::DMeu(k, _, _) | SQ::DBbReal(k, _, _) | SQ::DCondition(k, _, _) => (None, Some(*k)),
         }
@@ -774,6 +792,10 @@ fn sq_strategy() -> BoxedStrategy<SQ> {
         2 => (i(), any::<u8>()).prop_map(|(a, b)| SQ::Evaluate(a, b)),
         3 => (i(), any::<u8>(), any::<bool>()).prop_map(|(a, v, b)| SQ::Condition(a, v, b)),
         1 => (i(), sel_strategy()).prop_map(|(a, s)| SQ::WmcFf32(a, s)),
+        1 => i().prop_map(SQ::SemHash32),
+        1 => (i(), sel_strategy()).prop_map(|(a, s)| SQ::SemHash64Map(a, s)),
+        1 => i().prop_map(SQ::DSemHash32),
+        1 => (i(), sel_strategy()).prop_map(|(k, s)| SQ::DSemHash64Map(k, s)),
         1 => (i(), sel_strategy()).prop_map(|(a, s)| SQ::WmcComplex(a, s)),
         1 => (i(), sel_strategy()).prop_map(|(a, s)| SQ::WmcPoly(a, s)),
         1 => (i(), sel_strategy()).prop_map(|(a, s)| SQ::WmcBool(a, s)),
